@@ -624,3 +624,53 @@ class NumpyModel:
 
 
 NP = NumpyModel()
+
+
+# ---------------------------------------------------------------------------
+# images of symbolic shape as index functions (C11)
+
+class SImage:
+    """a 2-D array of symbolic shape (H, W): `src(i, j)` is the index in the ORIGINAL image whose
+    value is stored at [i, j].  transpose / fliplr / flipud are affine index maps."""
+
+    def __init__(self, shape, src):
+        self.shape = tuple(shape)
+        self.src = src
+        self.ndim = 2
+
+    @property
+    def T(self):
+        return transpose_image(self)
+
+
+def transpose_image(x):
+    h, w = x.shape
+    return SImage((w, h), lambda i, j: x.src(j, i))
+
+
+def fliplr(x):
+    if not isinstance(x, SImage):
+        raise OutsideSubset('fliplr of a non-image')
+    h, w = x.shape
+    return SImage((h, w), lambda i, j: x.src(i, w - 1 - j))
+
+
+def flipud(x):
+    if not isinstance(x, SImage):
+        raise OutsideSubset('flipud of a non-image')
+    h, w = x.shape
+    return SImage((h, w), lambda i, j: x.src(h - 1 - i, j))
+
+
+_transpose_arrays = transpose
+
+
+def transpose(x):          # noqa: F811  (images and arrays)
+    if isinstance(x, SImage):
+        return transpose_image(x)
+    return _transpose_arrays(x)
+
+
+NumpyModel.transpose = staticmethod(transpose)
+NumpyModel.fliplr = staticmethod(fliplr)
+NumpyModel.flipud = staticmethod(flipud)
